@@ -240,6 +240,41 @@ def _make_write_image(orig):
     return write_image
 
 
+class _SimThread(object):
+    def __init__(self, target=None, args=(), kwargs=None, daemon=None, name=None):
+        self._target, self._args, self._kwargs = target, tuple(args), dict(kwargs or {})
+        self.daemon = daemon
+        self._task = None
+
+    def start(self):
+        t = current_task()
+        sim = t.sim
+        sim.n_threads = getattr(sim, "n_threads", 0) + 1
+        self._task = sim.spawn("thread%d-%s" % (sim.n_threads, t.proc), lambda: self._target(*self._args, **self._kwargs), proc=t.proc)
+        sim.yield_point("thread.start")
+
+    def join(self, timeout=None):
+        t = current_task()
+        task = self._task
+        t.sim.block_until("thread.join", lambda: task.state == "done", timeout)
+
+    def is_alive(self):
+        return self._task is not None and self._task.state != "done"
+
+
+class _ThreadingShim(object):
+    def __init__(self, real):
+        self._real = real
+
+    def __getattr__(self, name):
+        return getattr(self._real, name)
+
+    def Thread(self, *a, **kw):
+        if current_task() is None:
+            return self._real.Thread(*a, **kw)
+        return _SimThread(*a, **kw)
+
+
 def install():
     if _installed:
         return
@@ -270,6 +305,15 @@ def install():
 
     from toasty import image as timage
     from toasty import pyramid as tpyramid
+
+    # threads started by toasty's parallel helpers (par_util.finish_queue joins the queue's feeder from a helper
+    # thread): inside a simulated process they are simulated tasks of that process
+    try:
+        from toasty import par_util as tpar
+        if hasattr(tpar, "threading"):
+            tpar.threading = _ThreadingShim(tpar.threading)
+    except ImportError:
+        pass
 
     _installed["load_path"] = timage.ImageLoader.load_path
     _orig_load_path = timage.ImageLoader.load_path
